@@ -453,7 +453,14 @@ fn resolve_nullable<'a>(
             (TypeRef::Named(_), None) => Ok(None),
 
             (TypeRef::NonNull(type_ref), Some(value)) => {
-                resolve_nullable(schema, ctx, type_ref, Some(value)).await
+                // a null value (`FieldValue::NULL`) is no value for a non-null type either
+                match resolve_nullable(schema, ctx, type_ref, Some(value)).await? {
+                    None | Some(Value::Null) => Err(ctx.set_error_path(
+                        Error::new("internal: non-null types require a return value")
+                            .into_server_error(ctx.item.pos),
+                    )),
+                    value => Ok(value),
+                }
             }
             (TypeRef::NonNull(_), None) => Err(ctx.set_error_path(
                 Error::new("internal: non-null types require a return value")
